@@ -11,8 +11,6 @@ FROM_RESIDUAL = 'core::ops::try_trait::FromResidual::from_residual'
 
 # calls that hand their (first) argument through unchanged as far as *identity of the value* goes
 TRANSPARENT = {
-    'core::convert::Into::into': 0,
-    'core::convert::From::from': 0,
     'core::clone::Clone::clone': 0,
     'core::convert::AsRef::as_ref': 0,
     'core::convert::AsMut::as_mut': 0,
@@ -598,3 +596,229 @@ def chain_names(body, o, depth=0):
 def is_name(body, o, name):
     """operand is (a projection / transparent view of) the user variable or parameter `name`"""
     return name in chain_names(body, o) or sem_is_name(body, sem(body, o), name)
+
+
+# ---- enum-valued place conditions ------------------------------------------------------------------
+
+def enum_condition_edges(body, adt, variant, place_ok, predicates=()):
+    """Edges on which a place (accepted by place_ok(sem)) of enum type `adt` is known to BE `variant`
+    ('is') or known NOT to be it ('not').  Recognised forms: match / if-let / matches! (discriminant switch),
+    `== / !=` against the variant constant, and bool predicates listed as (callee, meaning_when_true)."""
+    out = {'is': [], 'not': []}
+    try:
+        all_variants = [v['name'] for v in body.prog.adt(adt)['variants']]
+    except AnchorLost:
+        all_variants = []
+    for i in body.switches():
+        info = body.switch_info(i)
+        t = body.blocks[i]['term']
+        edges = [('e', i, str(v)) for v, _ in t['vals']] + [('e', i, 'otherwise')]
+        if info['kind'] == 'variant' and info['adt'] == adt and place_ok(sem(body, info['place'])):
+            for e in edges:
+                if e not in body.reachable:
+                    continue
+                lab = body.edge_variant(e)
+                if lab == variant:
+                    out['is'].append(e)
+                elif lab is not None:
+                    out['not'].append(e)
+                elif e[2] == 'otherwise' and variant in info['listed']:
+                    out['not'].append(e)
+        elif info['kind'] == 'bool':
+            cnd = info['cond']
+            if cnd[0] != 'call' or cnd[2]:
+                continue
+            ecs = cnd[1]
+            meaning = None   # True: cond true <=> place is variant
+            if ecs.declared in ('core::cmp::PartialEq::eq', 'core::cmp::PartialEq::ne') and len(ecs.args) == 2:
+                for a, o in ((0, 1), (1, 0)):
+                    if place_ok(sem(body, ecs.args[a])) and agg_variant_of(body, ecs.args[o]) == (adt, variant):
+                        meaning = ecs.declared.endswith('::eq')
+            for callee, m in predicates:
+                if ecs.is_(callee) and ecs.args and place_ok(sem(body, ecs.args[0])):
+                    meaning = m
+            if meaning is None:
+                continue
+            for e in edges:
+                bval = body.edge_bool(e)
+                if bval is None or e not in body.reachable:
+                    continue
+                if bval == meaning:
+                    out['is'].append(e)
+                elif len(all_variants) >= 1:
+                    out['not'].append(e)
+    return out
+
+
+# ---- normalised comparison facts on edges ---------------------------------------------------------------
+
+_FLIP = {'Lt': ('lt', 0, 1), 'Gt': ('lt', 1, 0), 'Le': ('le', 0, 1), 'Ge': ('le', 1, 0), 'Eq': ('eq', 0, 1), 'Ne': ('ne', 0, 1)}
+_NEG = {'lt': 'le', 'le': 'lt', 'eq': 'ne', 'ne': 'eq'}
+
+
+def cmp_facts(body):
+    """[(edge, rel, A, B)] with rel in lt/le/eq/ne meaning `A rel B` holds on that edge; A, B raw operands.
+    `a > b`, `b < a`, `!(a <= b)` all give ('lt', b, a)."""
+    out = []
+    for i in body.switches():
+        info = body.switch_info(i)
+        if info['kind'] != 'bool':
+            continue
+        cnd = info['cond']
+        ops = None
+        if cnd[0] == 'bin' and cnd[1] in _FLIP:
+            rel, x, y = _FLIP[cnd[1]]
+            ops = (rel, (cnd[2], cnd[3])[x], (cnd[2], cnd[3])[y])
+        elif cnd[0] == 'call' and not cnd[2] and cnd[1].declared in ('core::cmp::PartialEq::eq', 'core::cmp::PartialEq::ne') and len(cnd[1].args) == 2:
+            ops = ('eq' if cnd[1].declared.endswith('::eq') else 'ne', cnd[1].args[0], cnd[1].args[1])
+        elif cnd[0] == 'call' and not cnd[2] and cnd[1].declared in ('core::cmp::PartialOrd::lt', 'core::cmp::PartialOrd::le', 'core::cmp::PartialOrd::gt', 'core::cmp::PartialOrd::ge'):
+            nm = cnd[1].declared.rsplit('::', 1)[-1].capitalize()
+            rel, x, y = _FLIP[nm]
+            ops = (rel, cnd[1].args[x], cnd[1].args[y])
+        if ops is None:
+            continue
+        t = body.blocks[i]['term']
+        for e in [('e', i, str(v)) for v, _ in t['vals']] + [('e', i, 'otherwise')]:
+            if e not in body.reachable:
+                continue
+            bval = body.edge_bool(e)
+            if bval is None:
+                continue
+            rel, a, b = ops
+            if bval:
+                out.append((e, rel, a, b))
+            else:
+                nrel = _NEG[rel]
+                if rel in ('lt', 'le'):
+                    out.append((e, nrel, b, a))
+                else:
+                    out.append((e, nrel, a, b))
+    return out
+
+
+def facts_dominating(body, node, facts=None):
+    facts = facts if facts is not None else cmp_facts(body)
+    return [f for f in facts if body.dominates(f[0], node)]
+
+
+def has_fact(body, node, rel, pa, pb, facts=None, symmetric=None):
+    """some dominating edge carries `A rel B` with pa(A-operand) and pb(B-operand) true.
+    eq/ne are symmetric; `lt` also satisfies a request for `le`."""
+    for (e, r, a, b) in facts_dominating(body, node, facts):
+        if r == rel or (rel == 'le' and r == 'lt') or (rel == 'ne' and r == 'lt'):
+            if pa(a) and pb(b):
+                return True
+            if r in ('eq', 'ne') and pa(b) and pb(a):
+                return True
+    return False
+
+
+def const_val(body, o):
+    """integer value of a constant operand (literal, or named const resolved through the program)"""
+    if o is None:
+        return None
+    s = sem(body, o)
+    if s.kind == 'cast':
+        inner = s.extra[0]
+        if inner.kind == 'const':
+            s = inner
+    if s.kind != 'const':
+        return None
+    x = s.extra or {}
+    if 'val' in x:
+        try:
+            return int(x['val'])
+        except ValueError:
+            return None
+    if 'def' in x:
+        d = norm(x['def'])
+        if d in body.prog.consts:
+            return body.prog.consts[d]
+        if d.endswith('::MAX') and 'u16' in d:
+            return 65535
+        if d.endswith('::MAX') and 'u8' in d:
+            return 255
+    return None
+
+
+def const_def(body, o):
+    s = sem(body, o)
+    if s.kind == 'const' and s.extra and 'def' in s.extra:
+        return norm(s.extra['def'])
+    return None
+
+
+# ---- P13: must-pass-through summaries ---------------------------------------------------------------------
+
+def ok_exit_nodes(body):
+    return [x for x in ok_exits(body)]
+
+
+def must_call_on_ok(P, path, targets, depth=3, _seen=None):
+    """every success exit of function `path` is dominated by the success edge of a *checked* call to one of
+    `targets` -- directly, or through a callee for which the same holds (transitively, bounded depth).
+    returns (bool, explanation)"""
+    _seen = _seen or set()
+    if path in _seen or depth < 0:
+        return False, 'recursion / depth'
+    _seen = _seen | {path}
+    b = P.get(path)
+    if b is None:
+        return False, 'no body for %s' % path
+    if b.is_async:
+        b = P.get(path + '::{closure#0}') or b
+    exs = ok_exits(b)
+    if not exs:
+        return False, 'no success exit'
+    witnesses = []
+    for cs in b.calls():
+        direct = cs.is_(*targets)
+        via = False
+        if not direct:
+            for n in cs.names():
+                if P.has(n) and n != path:
+                    ok, _ = must_call_on_ok(P, n, targets, depth - 1, _seen)
+                    if ok:
+                        via = True
+                        break
+        if direct or via:
+            oc = outcomes(b, cs)
+            if oc.get('success'):
+                witnesses.append((cs, oc['success']))
+    for x in exs:
+        # a delegated exit: tail call to a function that itself satisfies the summary
+        if x['kind'] == 'call':
+            cs = x['cs']
+            if cs.is_(*targets):
+                continue
+            okd = False
+            for n in cs.names():
+                if P.has(n) and n != path:
+                    ok, _ = must_call_on_ok(P, n, targets, depth - 1, _seen)
+                    okd = okd or ok
+            if okd:
+                continue
+        if not any(dominated_by_any(b, edges, x['node']) for _, edges in witnesses):
+            return False, 'success exit at %s of %s is not dominated by a checked call to %s' % (x['node'], path, list(targets))
+    return True, 'all %d success exits of %s pass through %s' % (len(exs), path, [w[0].callee for w in witnesses][:3])
+
+
+def int_arms(body, place_ok=None):
+    """integer `match`: {value(str) | 'otherwise': region} for switches whose scrutinee origin satisfies place_ok"""
+    out = []
+    for i in body.switches():
+        info = body.switch_info(i)
+        if info['kind'] != 'int':
+            continue
+        t = body.blocks[i]['term']
+        s = sem(body, t['discr'])
+        if place_ok is not None and not place_ok(s):
+            continue
+        regs = arm_regions(body, i)
+        out.append((i, {e[2]: reg for e, reg in regs.items()}))
+    return out
+
+
+def exit_in(body, region, exs=None):
+    exs = exs if exs is not None else exits(body)
+    return [x for x in exs if x['node'] in region]
